@@ -431,9 +431,20 @@ def run(ctx):
                for st in stmts(si)), "a key without value cannot be read back", si.lineno, nontrivial=False)
     # key grammar: what serialize emits is what the component regexes accept
     ks = sd.func("Metadata.Key.serialize")
-    emitted = sorted(ast.unparse(n) for n in ast.walk(ks) if isinstance(n, ast.JoinedStr))
-    ctx.ob("R5.key-components", SDF, "Metadata.Key.serialize", str(emitted),
-           emitted == sorted(["f'DT{self.number} '", "f'<{self.name}> '", "f'{self.registry_internal} '", "f'({self.registry_external}) '"]),
+    def form(js):
+        out = ""
+        for v in js.values:
+            out += v.value if isinstance(v, ast.Constant) else "{" + (dotted(v.value) or "?").split(".")[-1] + "}"
+        return out.strip()
+
+    jss = [n for n in ast.walk(ks) if isinstance(n, ast.JoinedStr)]
+    emitted = sorted(form(n) for n in jss)
+    own_sep = [isinstance(n.values[-1], ast.Constant) and n.values[-1].value.endswith(" ") for n in jss]
+    common_sep = any(isinstance(n, ast.BinOp) and isinstance(n.op, ast.Add) and isinstance(n.right, ast.Constant) and n.right.value == " "
+                     and isinstance(n.left, ast.Name) for n in ast.walk(ks)) or "' '.join(" in ast.unparse(ks)
+    ctx.ob("R5.key-components", SDF, "Metadata.Key.serialize", str(emitted) + (" each + ' '" if all(own_sep) or common_sep else " separators: " + str(own_sep)),
+           emitted == sorted(["DT{number}", "<{name}>", "{registry_internal}", "({registry_external})"])
+           and (all(own_sep) or (not any(own_sep) and common_sep)),
            "key components must be written in the forms DTn, <name>, n, (ext) the component regexes parse",
            ks.lineno)
     kcls = sd.cls("Metadata.Key")
